@@ -7,11 +7,14 @@ import Ibx.Spec.Store
   Model of one SMTP session (pkg/server/smtp/handler.go) and of message.StoreManager.Deliver
   (pkg/message/manager.go), as a function of the raw input bytes.
 
-  Parameters (not modelled, see DESIGN.md §9): the two regular expressions of MAIL FROM parsing (`mailRe`,
-  `parseArgs`), enmime's header parsing (`hdr`), net.ParseIP (`ip`), the extension hooks, the clock
+  Parameters (not modelled, see DESIGN.md §9): enmime's header parsing (`hdr`), net.ParseIP (`ip`), the extension hooks, the clock
   (`tstamp`), strings.ToUpper beyond ASCII, the TLS library (`Wire.tlsOpen`).  `budget` = number of reply lines that can
   still be sent before the network send fails (`none` = the peer keeps reading): after a failed send the
   loop ends at its next head, exactly as `for ssn.state != QUIT && ssn.sendError == nil`.
+  The two regular expressions of MAIL FROM parsing are still FIELDS of `Env` (`mailRe`, `parseArgs`) so that the session
+  theorems hold for any pair of functions, but they are no longer left open: `Ibx.Model.MailArgs` holds the concrete
+  recognisers (what Go's regexp engine returns for the two expressions), the driver instantiates the fields with them, and
+  `Ibx.Props.C06Args` / `C03Args` are the theorems about sessions so instantiated.
 
   TLS.  `Env.tlsEnabled` is config.SMTP.TLSEnabled as NewServer leaves it (false when the key pair could not be loaded),
   `Env.forceTLS` is config.SMTP.ForceTLS, `Sess.tls` is `s.tlsState != nil`.  `run` sees the COMMAND STREAM of the
@@ -59,8 +62,8 @@ structure Env where
   remoteHost : Bytes
   tstamp : Bytes
   ip : Bytes → Bool
-  mailRe : Bytes → Option (Bytes × Bytes)            -- fromRegex: (address, params) or no match
-  parseArgs : Bytes → Option (List (Bytes × Bytes))  -- ` (\w+)=(\w+|<>)` pairs, keys as written
+  mailRe : Bytes → Option (Bytes × Bytes)            -- fromRegex: (address, params) or no match; concretely MailArgs.mailRe
+  parseArgs : Bytes → Option (List (Bytes × Bytes))  -- ` (\w+)=(\w+|<>)` pairs, keys as written; concretely MailArgs.parseArgs
   hdr : Bytes → Option HdrInfo
   hookMail : Bytes → Option HookAns                  -- BeforeMailFromAccepted(from)
   hookRcpt : Option Bytes → List Bytes → Option HookAns  -- BeforeRcptToAccepted(from, to ++ [candidate])
